@@ -121,13 +121,13 @@ def timestampCheck (s : Store) (h : Hdr) (now : Nat) : Option Error :=
 
 /-- `find_next_difficulty_in_chain` (testnet / regtest): walk back while the header carries the
     minimum difficulty and is not at a retarget boundary -/
-def findNextDifficulty (net : Net) (s : Store) (initial : Nat) : Nat → Hdr → Nat → Nat
-  | 0, _, _ => powLimitBits net
+def findNextDifficulty (net : Net) (s : Store) (initial : Nat) : Nat → Hdr → Nat → Option Nat
+  | 0, _, _ => some (powLimitBits net)
   | fuel + 1, cur, curHeight =>
-    if cur.bits ≠ powLimitBits net || curHeight % difficultyAdjustmentInterval = 0 then cur.bits
-    else if cur.hash = initial then powLimitBits net
+    if cur.bits ≠ powLimitBits net || curHeight % difficultyAdjustmentInterval = 0 then some cur.bits
+    else if cur.hash = initial then some (powLimitBits net)
     else match s.getByHash cur.prev with
-      | none => powLimitBits net   -- the code panics here ("previous header should be in the header store")
+      | none => none   -- panic: "previous header should be in the header store"
       | some p => findNextDifficulty net s initial fuel p (curHeight - 1)
 
 /-- `compute_next_difficulty`; `none` = "Last adjustment header must exist" panic -/
@@ -150,7 +150,7 @@ def nextTarget (net : Net) (s : Store) (prev : Hdr) (prevHeight : Nat) (timestam
   | _ =>
     if (prevHeight + 1) % difficultyAdjustmentInterval ≠ 0 then
       if timestamp > prev.time + tenMinutes * 2 then some (maxTarget net)
-      else some (fromCompact (findNextDifficulty net s ((s.initialHash).getD 0) (prevHeight + 2) prev prevHeight))
+      else (findNextDifficulty net s ((s.initialHash).getD 0) (prevHeight + 2) prev prevHeight).map fromCompact
     else (computeNextDifficulty net s prev prevHeight).map fromCompact
 
 inductive Verdict where
